@@ -318,7 +318,7 @@ def _leaves(e: BaseException) -> list[BaseException]:
 
 
 def plan(tier: str) -> dict[str, Any]:
-    n = 2000 if tier == "quick" else 150000
+    n = 5000 if tier == "quick" else 500000
     return {"cases": n, "budget_s": 90 if tier == "quick" else 1500, "min_per_shard": 50}
 
 
